@@ -47,7 +47,7 @@ func c16Text(rules []C08Rule, tagBase int64) (string, map[string]int64) {
 	for i, r := range rules {
 		tag := tagBase + int64(i)
 		tags[r.Name] = tag
-		sal := fmt.Sprintf(" salience %d", r.Sal)
+		sal := " salience " + salText(r.Sal, r.Zeros)
 		if r.NoSal {
 			sal = ""
 		}
